@@ -1,0 +1,15 @@
+//go:build verif
+
+package keystore
+
+import "sync/atomic"
+
+var verifSignCount uint64
+
+// verifCountSign records that a signature is about to be produced with a
+// keystore key (verification hook, build tag verif only).
+func verifCountSign() { atomic.AddUint64(&verifSignCount, 1) }
+
+// VerifSignCount returns how many signatures have been produced with keystore
+// keys in this process.
+func VerifSignCount() uint64 { return atomic.LoadUint64(&verifSignCount) }
